@@ -4,4 +4,4 @@ set -e
 cd "$(dirname "$0")"
 coqc -Q ../coq NV ../coq/Extract/Extract.v > extract.log 2>&1 || { cat extract.log; exit 1; }
 ocamlfind ocamlopt -O3 -unboxed-types 2>/dev/null >/dev/null || true
-ocamlfind ocamlopt -w -a -package str nv.mli nv.ml util.ml chars_cmd.ml match_cmd.ml boxcar_cmd.ml nucleo_cmd.ml utf32_cmd.ml pat_cmd.ml pattern_cmd.ml driver.ml -linkpkg -o driver
+ocamlfind ocamlopt -w -a -package str nv.mli nv.ml util.ml chars_cmd.ml match_cmd.ml boxcar_cmd.ml nucleo_cmd.ml utf32_cmd.ml pat_cmd.ml pattern_cmd.ml parsort_cmd.ml driver.ml -linkpkg -o driver
